@@ -2,10 +2,10 @@ import sys, json, random
 sys.path.insert(0,'/verif')
 from harness import common, histcheck, funcorr, gen_hist, hist
 from multiprocessing import Pool
-stg = common.build_stg(); driver = '/verif/ocaml/driver'; up = funcorr.unicode_dump(stg)
+stg = common.build_stg(); driver = __import__('os').environ.get('VERIF_TRIAL_DRIVER', '/verif/ocaml/driver'); up = funcorr.unicode_dump(stg)
 profiles = sys.argv[3].split(",") if len(sys.argv)>3 else ["BASIC","REORDER","COMMIT","UNDO"]
 lo, hi = int(sys.argv[1]), int(sys.argv[2])
-args = [(stg, driver, up, seed, profiles[seed % len(profiles)], 36, ["c01","c02","content","log","c06","prev","c20","c09"], "tr") for seed in range(lo,hi)]
+args = [(stg, driver, up, seed, profiles[seed % len(profiles)], 36, ["c01","c02","content","log","c06","prev","c20","c09","failkeeps","dirty"], "tr") for seed in range(lo,hi)]
 with Pool(14) as pool:
     res = pool.map(histcheck._worker, args)
 ncmd=0; kinds={}
@@ -13,7 +13,7 @@ bad=0
 for r in res:
     ncmd += len(r["steps"])
     for s,e in zip(r["steps"], r["exits"]):
-        if s["c"] in ("edit","rebase","squash"): kinds[(s["c"],e)] = kinds.get((s["c"],e),0)+1
+        if s["c"] in ("edit","rebase","squash","pick","uncommit","reset"): kinds[(s["c"],e)] = kinds.get((s["c"],e),0)+1
     if r.get("error"): print("ERROR", r["seed"], r["error"][-400:]); bad+=1
     if r["mismatch"]:
         bad+=1
